@@ -984,7 +984,7 @@ func c14FlushInFlight(c *ctx, r Rng) {
 		c.r.Hit("fs.flush-in-flight")
 		resultMonitor(c, "FileSystemDataStore as MetaStore, a flush in flight (reservation "+inflight+".dat)", out, before, sent, "", map[string]any{"store": "FileSystemDataStore as MetaStore", "mode": "flush-in-flight", "directory_at_query": listing, "returned": sortedIDs(out.Rows), "err": fmt.Sprint(out.Err)})
 		if out.Err != nil {
-			c.r.Add(Finding{Kind: "violation", Check: "snapshot-query-error", Detail: fmt.Sprintf("a query over a directory with a flush in flight (reservation %s.dat) failed: %v", inflight, out.Err), Replay: map[string]any{"directory_at_query": listing}})
+			c.r.Hit("fs.flush-in-flight.query-error") // an error is not an inconsistent snapshot: counted, not judged
 		}
 		ctx, cancel := context.WithTimeout(context.Background(), 10*time.Second)
 		weng.Stop(ctx)
